@@ -11,7 +11,7 @@ from . import sqlproxy as SP
 OPS_ALL = ["mk", "mk", "mk_child", "mk_child", "add", "set", "set", "set_parent", "bs_append", "bs_remove", "bs_replace", "tag_add", "tag_remove",
            "node_parent", "follow", "unfollow", "set_p", "k_rename", "h_doc", "delete", "expunge", "flush", "flush", "commit", "rollback",
            "begin_nested", "sp_commit", "sp_rollback", "close", "requery", "get", "lazy", "expire", "expire_all", "refresh",
-           "mut_data", "mut_items", "ext_update", "merge", "drop", "gc", "pickle_rt", "populate_existing", "q_ops", "g_ops", "expire_attr", "read", "m_ops", "m_reload", "reset"]
+           "mut_data", "mut_items", "ext_update", "merge", "drop", "gc", "pickle_rt", "populate_existing", "q_ops", "g_ops", "expire_attr", "read", "m_ops", "m_reload", "reset", "set_k", "bulk", "row_replace"]
 
 
 _ENGINES = {}
@@ -158,6 +158,20 @@ class Run:
         if self.lplan.get((name, n)) and self.plan.enabled:
             self.lfired.append((name, n))
             raise InjectedListenerError("injected exception in %s hook" % name)
+
+    def quiet(self):
+        """harness-internal helper sessions (reload check, detached copies read by a second session) are not fault targets"""
+        import contextlib
+
+        @contextlib.contextmanager
+        def cm():
+            was = self.plan.enabled
+            self.plan.enabled = False
+            try:
+                yield
+            finally:
+                self.plan.enabled = was
+        return cm()
 
     def fired_total(self):
         return len(self.plan.fired) + len(self.lfired)
@@ -322,12 +336,13 @@ class Run:
         out = None
         exc = self.m["exc"]
         self._fired_mark = self.fired_total()
+        self.expected_integrity = False
         try:
             out = getattr(self, "op_" + kind)(a1, a2)
         except exc.IntegrityError as e:
             out = "IntegrityError"
-            if not self.faulted_now() and not self.planted:
-                self.V("C31", "flush_integrity_error", "flush raised IntegrityError although the final in-memory state satisfies every constraint "
+            if not self.faulted_now() and not self.planted and not getattr(self, "expected_integrity", False):
+                self.V("*" if self.case.get("stop_on") and "C31" not in self.case["stop_on"] else "C31", "flush_integrity_error", "flush raised IntegrityError although the final in-memory state satisfies every constraint "
                        "(universe %s, op %s): %s" % (self.cfg["universe"], kind, str(e).split("\n")[0][:100]), op=i)
             self.recover(i, kind)
         except exc.PendingRollbackError:
@@ -680,7 +695,7 @@ class Run:
         C = self.U["classes"][cn]
         n = self._newid(cn)
         if cn == "K":
-            o = C(name="k%d" % n, val=a2)
+            o = C(name="k%d" % n, val=a2, memo="m%d" % a2)
         elif cn == "A":
             o = C(id=n, name="a%d" % a2, data={"k": a2}, items=[a2])
         elif cn == "A2":
@@ -1041,9 +1056,41 @@ class Run:
             self.check_add_cascade(pa["obj"], before_members)
         return "%d.p=%d" % (pa["label"], p["label"])
 
+    def op_set_k(self, a1, a2):
+        """many-to-one A.k to the natural-key class K (declared on the inheritance base, passive_updates=False, no reverse side)"""
+        pa = self.pick(a1, lambda e: e["cls"] in ("A", "A2") and self.usable(e))
+        if pa is None:
+            return "skip"
+        if a2 % 4 == 0:
+            if OS.state_of(pa["obj"]) == "persistent" and not OS.loaded(pa["obj"], "k")[0] and self.cfg.get("autoflush", True):
+                pa["obj"].k
+            pa["obj"].k = None
+            return "%d.k=None" % pa["label"]
+        k = self.pick(a2, lambda e: e["cls"] == "K" and self.usable(e))
+        if k is None or not self.pair_ok(pa["obj"], k["obj"]):
+            return "skip"
+        before_members = self.members()
+        pa["obj"].k = k["obj"]
+        if self.in_session(pa["obj"]):
+            self.check_add_cascade(pa["obj"], before_members)
+        return "%d.k=%d" % (pa["label"], k["label"])
+
+    def k_referrers_ok(self, ko, need_loaded):
+        """rows of a that refer to this K: with need_loaded, every one of them must be an object of the session with A.k loaded (the ORM
+        keeps referring rows in step with a primary key change only for objects it holds: passive_updates=False, no reverse side)"""
+        pk = OS.pk_of(ko)
+        cols = self.U["tables"]["a"]
+        rows = [r[0] for r in self.prev_tables["a"].values() if r[cols.index("k_name")] == pk] if pk is not None else []
+        held = {OS.pk_of(e["obj"]): e for e in self.entries(self.of("A", "A2")) if self.in_session(e["obj"])}
+        if not need_loaded:
+            return not rows and not any(OS.loaded(e["obj"], "k")[1] is ko for e in self.entries(self.of("A", "A2")))
+        return all(r in held for r in rows)
+
     def op_k_rename(self, a1, a2):
         k = self.pick(a1, lambda e: e["cls"] == "K" and self.usable(e))
         if k is None:
+            return "skip"
+        if not self.k_referrers_ok(k["obj"], True):
             return "skip"
         k["obj"].name = "k%d" % self._newid("K")
         return k["label"]
@@ -1203,6 +1250,8 @@ class Run:
         # R1: nothing still points at the object through a relationship without delete cascade that would block it
         if e["cls"] in ("A", "A2") and not self.U["cfg"]["fk_nullable"] and "delete" not in self.U["cfg"]["bs"]:
             return "skip"
+        if e["cls"] == "K" and not self.k_referrers_ok(o, False):
+            return "skip"      # R1: A.k has no reverse side that could null the referring rows out
         # R1: the object to delete must not take part in any relationship change that has not been flushed yet (a child attached to
         # a parent that is deleted in the same flush, an association row added for a deleted object, ... are invalid final states)
         insp = self.m["inspect"]
@@ -1281,7 +1330,8 @@ class Run:
         tabs = self.prev_tables
         pk = OS.pk_of(o)
         own = tabs[self.tab_of(e["cls"])].get(pk) if pk is not None else None
-        fkcols = {"b": ["a_id"], "p": ["a_id"], "node": ["parent_id"], "r": ["q_id"], "h": ["d_id"], "d": ["bl_id"], "o": ["g_id"]}.get(self.tab_of(e["cls"]), [])
+        fkcols = {"b": ["a_id"], "p": ["a_id"], "node": ["parent_id"], "r": ["q_id"], "h": ["d_id"], "d": ["bl_id"], "o": ["g_id"],
+                  "a": ["k_name"]}.get(self.tab_of(e["cls"]), [])
         if own is not None and any(own[self.U["tables"][self.tab_of(e["cls"])].index(c)] is not None for c in fkcols):
             return "skip"
         if pk is not None and any(pk in (r[0], r[1]) for t2 in ("b_t", "nf") for r in tabs[t2].values()
@@ -1289,9 +1339,9 @@ class Run:
             return "skip"
         if e["cls"] in ("D", "BL", "R", "B", "P", "O") or (pk is not None and any(
                 row[cols.index(col)] == pk for (t2, col) in (("b", "a_id"), ("p", "a_id"), ("node", "parent_id"), ("r", "q_id"), ("h", "d_id"), ("d", "bl_id"),
-                                                             ("o", "g_id"))
+                                                             ("o", "g_id"), ("a", "k_name"))
                 for cols in [self.U["tables"][t2]] for row in tabs[t2].values()
-                if {"b": ("A", "A2"), "p": ("A", "A2"), "node": ("Node",), "r": ("Q",), "h": ("D",), "d": ("BL",), "o": ("G",)}[t2].__contains__(e["cls"]))):
+                if {"b": ("A", "A2"), "p": ("A", "A2"), "node": ("Node",), "r": ("Q",), "h": ("D",), "d": ("BL",), "o": ("G",), "a": ("K",)}[t2].__contains__(e["cls"]))):
             return "skip"       # rows elsewhere still refer to it: unloaded relationships would tie the detached object to the session
         self.session.expunge(o)
         e["expunged"] = True
@@ -1430,6 +1480,9 @@ class Run:
                 self.V("C33", "persistent_without_row", "after rollback %s #%s is persistent in the session but has no row" % (e["cls"], pk))
             if st in ("pending", "deleted"):
                 self.V("C33", "state_survived_rollback", "after rollback %s is still %s" % (e["cls"], st))
+                # (the same fact in the vocabulary of C35: rollback is documented to take pending -> transient, deleted -> persistent)
+                self.V("C35", "rollback_transition_missing", "after rollback %s is still %s: the documented transition out of that state did "
+                       "not happen" % (e["cls"], st))
         for e in self.entries():
             o = e["obj"]
             was = getattr(self, "before_states", {}).get(e["label"])
@@ -1786,7 +1839,7 @@ class Run:
             elif e["cls"] == "B":
                 self.obs.execute("update b set val=? where id=?", (1000 + a2, pk))
             else:
-                self.obs.execute("update k set val=? where name=?", (1000 + a2, pk))
+                self.obs.execute("update k set val=?, memo=? where name=?", (1000 + a2, "xm%d" % a2, pk))
         except sqlite3.OperationalError:
             return "locked"
         self.prev_tables = self.probe(committed=True)
@@ -1810,12 +1863,27 @@ class Run:
     def op_merge(self, a1, a2):
         """C45: Session.merge of (0) a transient copy carrying some scalars, (1) a copy carrying a collection as well (merge cascade),
         (2) a clean detached instance from a second session with load=False, (3) a brand-new identity"""
-        mode = a2 % 4
+        mode = a2 % 6
         sess = self.session
         insp = self.m["inspect"]
         C = self.U["classes"]
         if not self.cfg.get("autoflush", True) and (sess.new or sess.dirty or sess.deleted):
             return "skip"      # R3: merge looks the identity up in the database; without autoflush pending rows would be duplicated
+        if mode == 5:
+            # a merge that is refused (documented: load=False does not take transient objects) is a failed operation and nothing else
+            cn = ("K", "T")[a1 % 2]
+            n = self._newid(cn)
+            src = C[cn](name="k%d" % n, val=a2) if cn == "K" else C[cn](id=n, name="m%d" % a2)
+            try:
+                sess.merge(src, load=False)
+                self.V("C45", "merge_load_false_took_transient", "merge(load=False) accepted a transient object")
+            except self.m["exc"].InvalidRequestError:
+                self.bump("probe:merge_refused")
+            if insp(src).session is not None or src in sess:
+                self.V("C45", "merge_adopted_given_object", "a refused merge() left the given object in the session")
+            return "merge5 refused"
+        if mode == 4:
+            return self.merge_pk_change(a1, a2)
         if mode == 3:
             cn = ("A", "A2", "K", "T")[a1 % 4]
             n = self._newid(cn)
@@ -1823,13 +1891,16 @@ class Run:
                 C[cn](id=n, name="m%d" % a2, extra="mx%d" % a2) if cn == "A2" else C[cn](id=n, name="m%d" % a2))
             pk, target, e = (src.name if cn == "K" else n), None, None
         else:
+            # (a pending instance counts as the session's instance when autoflush is on: merge() flushes before it looks)
             e = self.pick(a1, lambda e: e["cls"] in ("A", "A2", "K", "B", "T") and not e.get("retired") and OS.pk_of(e["obj"]) is not None and (
                 (self.in_session(e["obj"]) and OS.state_of(e["obj"]) == "persistent" and e["obj"] not in sess.deleted) or
+                (self.in_session(e["obj"]) and OS.state_of(e["obj"]) == "pending" and self.cfg.get("autoflush", True) and mode in (0, 1)
+                 and e["cls"] in ("K", "T", "A", "A2")) or
                 (OS.state_of(e["obj"]) == "detached" and not insp(e["obj"]).was_deleted)))
             if e is None:
                 return "skip"
             cn, pk = e["cls"], OS.pk_of(e["obj"])
-            if pk not in self.prev_tables[self.tab_of(cn)]:
+            if pk not in self.prev_tables[self.tab_of(cn)] and OS.state_of(e["obj"]) != "pending":
                 return "skip"
             if any(x["cls"] == "B" and "delete-orphan" in self.U["cfg"]["bs"] and self.in_session(x["obj"]) and
                    OS.loaded(x["obj"], "a") == (True, None) for x in self.entries()):
@@ -1853,16 +1924,17 @@ class Run:
             if sess.new or sess.dirty or sess.deleted or self.txn_flushed or self.sp_stack:
                 return "skip"      # R3: a detached copy read by another session shows committed state only
             S = self.m["Session"]
-            s2 = S(self.engine)
-            try:
-                src = s2.get(C["A" if cn == "A2" else cn], pk)
-                if src is None:
-                    return "skip"
-                if cn in ("A", "A2") and a1 % 2:
-                    list(src.bs)
-                given = {an: getattr(src, an) for an in names}
-            finally:
-                s2.close()
+            with self.quiet():
+                s2 = S(self.engine)
+                try:
+                    src = s2.get(C["A" if cn == "A2" else cn], pk)
+                    if src is None:
+                        return "skip"
+                    if cn in ("A", "A2") and a1 % 2:
+                        list(src.bs)
+                    given = {an: getattr(src, an) for an in names}
+                finally:
+                    s2.close()
         elif mode != 3:
             kw = {"name": pk} if cn == "K" else {"id": pk}
             src = C[cn](**kw)
@@ -1890,6 +1962,10 @@ class Run:
             want_bs = sorted(b.id for b in src.bs)
         del self.sql[:]
         before_dirty = None
+        import contextlib
+        # merge() inside an application-level no_autoflush block (only with nothing pending, so the block changes nothing): the
+        # session must come out of it with its configured autoflush behaviour
+        block = sess.no_autoflush if (a1 % 5 == 0 and not (sess.new or sess.dirty or sess.deleted)) else contextlib.nullcontext()
         if mode == 2:
             merged = sess.merge(src, load=False)
             if self.sql:
@@ -1897,7 +1973,8 @@ class Run:
             if merged in sess.dirty or sess.is_modified(merged):
                 self.V("C45", "merge_load_false_flagged_change", "merge(load=False) of a clean %s flagged the session's instance as modified" % cn)
         else:
-            merged = sess.merge(src)
+            with block:
+                merged = sess.merge(src)
         if merged is src or insp(src).session is not None:
             self.V("C45", "merge_adopted_given_object", "merge() put the given %s itself into the session" % cn)
         if not self.in_session(merged):
@@ -1939,6 +2016,117 @@ class Run:
                    % (cn, s1, snap(), net_before, sess.is_modified(again)))
         self.bump("probe:merge_mode_%d" % mode)
         return "merge%d %s#%s" % (mode, cn, pk)
+
+    def merge_pk_change(self, a1, a2):
+        """C45 on a natural primary key: (a) the given (detached) object had its key attribute re-assigned - the session's instance,
+        found by the identity key, must take the new value; (b) the session's instance has an unflushed key change (autoflush off) and
+        a clean detached copy is merged - the instance must get the given (old) value back"""
+        sess = self.session
+        insp = self.m["inspect"]
+        K = self.U["classes"]["K"]
+        if sess.new or sess.dirty or sess.deleted or self.txn_flushed or self.sp_stack:
+            return "skip"
+        e = self.pick(a1, lambda e: e["cls"] == "K" and self.in_session(e["obj"]) and OS.state_of(e["obj"]) == "persistent"
+                      and OS.pk_of(e["obj"]) in self.prev_tables["k"])
+        if e is None or not self.k_referrers_ok(e["obj"], True):
+            return "skip"
+        target, pk = e["obj"], OS.pk_of(e["obj"])
+        with self.quiet():
+            s2 = self.m["Session"](self.engine)
+            try:
+                src = s2.get(K, pk)
+                if src is None:
+                    return "skip"
+                src.val, src.memo
+            finally:
+                s2.close()
+        variant = (a2 // 6) % 2
+        if variant == 0:
+            want = "k%d" % self._newid("K")
+            src.name = want
+        else:
+            if self.cfg.get("autoflush", True):
+                return "skip"
+            target.name = "k%d" % self._newid("K")
+            want = pk
+        merged = sess.merge(src)
+        if merged is not target:
+            self.V("C45", "merge_returned_other_instance", "merge() of K %r returned a different object than the session's instance" % pk)
+        got = OS.loaded(merged, "name")
+        if got != (True, want):
+            self.V("C45", "merged_state_differs", "after merge K %r.name is %r, the given object had %r" % (pk, got[1] if got[0] else "<unloaded>", want))
+        self.bump("probe:merge_pk_variant_%d" % variant)
+        return "merge4 K#%s" % pk
+
+    def op_bulk(self, a1, a2):
+        """legacy bulk operations on the session (rows without objects); every third one collides with an existing primary key and fails"""
+        sess = self.session
+        K = self.U["classes"]["K"]
+        if a2 % 3 == 0:
+            have = sorted(self.prev_tables["k"])
+            if not have:
+                return "skip"
+            name = have[a1 % len(have)]
+            self.expected_integrity = True          # (cleared at the start of the next operation)
+            sess.bulk_insert_mappings(K, [{"name": name, "val": a2}])
+            self.V("C30", "duplicate_row_accepted", "bulk_insert_mappings with an existing primary key did not fail")
+            return "bulk dup"
+        name = "k%d" % self._newid("K")
+        self.dropped_pks.setdefault("k", set()).add(name)
+        if a2 % 3 == 1:
+            sess.bulk_insert_mappings(K, [{"name": name, "val": a2, "memo": "b"}])
+        else:
+            sess.bulk_save_objects([K(name=name, val=a2, memo="b")])
+        self.txn_flushed = True
+        now = self.probe()
+        if name not in now["k"]:
+            self.V("C30", "bulk_row_missing", "bulk insert of K %r left no row" % name)
+        self.prev_tables = now
+        return "bulk ins"
+
+    def op_row_replace(self, a1, a2):
+        """the row of an expired persistent object is deleted by another connection, then a new object with the same primary key is
+        added and flushed: the stale object leaves through 'deleted' (documented for a flush that finds the row gone), the new one is
+        the identity's object"""
+        sess = self.session
+        if self.sp_stack:
+            return "skip"
+        if sess.in_transaction() or sess.new or sess.dirty or sess.deleted:
+            self.op_commit(0, 0)
+            if self.viol:
+                return "commit-first"
+        e = self.pick(a1, lambda e: e["cls"] in ("K", "T") and self.in_session(e["obj"]) and OS.state_of(e["obj"]) == "persistent" and
+                      OS.pk_of(e["obj"]) in self.prev_tables[self.tab_of(e["cls"])])
+        if e is None:
+            return "skip"
+        old, cn, pk = e["obj"], e["cls"], OS.pk_of(e["obj"])
+        if cn == "K" and not self.k_referrers_ok(old, False):
+            return "skip"
+        if cn == "T" and any(r[1] == pk for r in self.prev_tables["b_t"].values()):
+            return "skip"
+        try:
+            self.obs.execute("delete from %s where %s=?" % (self.tab_of(cn), "name" if cn == "K" else "id"), (pk,))
+        except sqlite3.OperationalError:
+            return "locked"
+        sess.expire(old)
+        C = self.U["classes"][cn]
+        new = C(name=pk, val=a2, memo="r") if cn == "K" else C(id=pk, name="r%d" % a2)
+        self.track(new, cn)
+        e["replaced"] = True
+        e["retired"] = True
+        sess.add(new)
+        sess.flush()
+        self.txn_flushed = True
+        st_old, st_new = OS.state_of(old), OS.state_of(new)
+        key = self.m["inspect"](new).key
+        if st_new != "persistent" or sess.identity_map.get(key) is not new:
+            self.V("C35", "replacement_not_persistent", "the new %s #%s is %s / not the identity map's object after the flush" % (cn, pk, st_new))
+        if st_old != "deleted":
+            self.V("C35", "stale_object_not_deleted", "the flush found the row of the expired %s #%s gone and replaced it; the stale object is "
+                   "%s%s, not 'deleted'" % (cn, pk, st_old, "" if self.in_session(old) else " (outside the session)"))
+        self.prev_tables = self.probe()
+        self.bump("probe:row_replaced")
+        return "%d replaced" % e["label"]
 
     # ---- C49: one attribute per Mutable* flavour
     def m_row_values(self, row):
@@ -2402,6 +2590,8 @@ class Run:
                 continue
             if st == "deleted" or (st == "detached" and self.m["inspect"](o).was_deleted):
                 owned[tab].add(pk)
+                if e.get("replaced"):
+                    continue      # its identity now belongs to the object that replaced it
                 if pk in now[tab]:
                     self.V("C30", "deleted_object_row_present", "%s #%s is deleted in the session but its row is still there after %s" % (cn, pk, how))
                 if cn == "A2" and pk in now["a2"]:
@@ -2493,6 +2683,14 @@ class Run:
                         if got != want:
                             self.V("C30", "association_rows_differ_from_collection", "%s #%s.%s holds %s in memory but %s has %s after %s"
                                    % (cn, pk, an, want, t2, got, how))
+        # no row refers to a row that does not exist (deferred / unenforced foreign keys included)
+        for t2, col, t3 in (("a", "k_name", "k"), ("b", "a_id", "a"), ("p", "a_id", "a"), ("node", "parent_id", "node"), ("d", "bl_id", "bl"),
+                            ("h", "d_id", "d"), ("r", "q_id", "q"), ("o", "g_id", "g"), ("b_t", "b_id", "b"), ("b_t", "t_id", "t"),
+                            ("nf", "src", "node"), ("nf", "dst", "node"), ("a2", "id", "a")):
+            j = U["tables"][t2].index(col)
+            for key, row in now[t2].items():
+                if row[j] is not None and row[j] not in now[t3]:
+                    self.V("C30", "dangling_foreign_key", "after %s row %s#%s has %s=%r but %s holds no such row" % (how, t2, key, col, row[j], t3))
         known = {t: set() for t in now}
         for e in self.entries():
             pk = OS.pk_of(e["obj"])
@@ -2602,7 +2800,7 @@ class Run:
         """C30: a new session reproduces an equivalent graph from the committed rows"""
         now = self.probe(committed=True)
         S = self.m["Session"]
-        with S(self.engine) as s2:
+        with self.quiet(), S(self.engine) as s2:
             for cn, tab in (("A", "a"), ("B", "b"), ("T", "t"), ("Node", "node"), ("K", "k"), ("P", "p"), ("H", "h"), ("G", "g"), ("O", "o")):
                 objs = s2.execute(self.m["select"](self.U["classes"][cn])).scalars().all()
                 got = sorted(OS.pk_of(o) for o in objs)
